@@ -62,6 +62,9 @@ func genC11(g *simrt.Tape, tier string) any {
 	}
 	sc.Chunk = []int{simnet.ChunkMax, simnet.ChunkRandom}[g.Draw(2)]
 	sc.DataEOF = g.Draw(3) == 0
+	if !sc.Enforce && g.Draw(6) == 0 {
+		sc.DiscoverMode = 1 + g.Draw(2)
+	}
 	return sc
 }
 
@@ -77,6 +80,11 @@ func execC11(x *X, scAny any) {
 		return // a panicking caller leaves calls unreturned: report the panic only
 	}
 	if w.client == nil {
+		// Dial failed: the caller got no client to close, so nothing of it may stay behind
+		if alive := x.S.AliveSUT("kmipclient"); len(alive) > 0 && w.dialErr != nil {
+			sig, full := aliveSummary(alive)
+			x.Reportf("C11.goroutines-left-after-failed-dial", sig, "Dial returned %q, at quiescence %d client goroutine(s) are still alive: %s (dials=%d)", w.dialErr, len(alive), full, w.dials)
+		}
 		return
 	}
 	w.allReturnedOracle("C11")
@@ -165,6 +173,23 @@ func c11Floor(tier string) []*ClientSc {
 					out = append(out, &ClientSc{Prop: "C11", Enforce: enforce, Suffix: 3, FinalClose: true,
 						Callers: []CallerSc{{Calls: calls}},
 						Conns:   []ConnSc{{Plan: []simnet.FaultAt{{Op: k, Kind: kind}}}}})
+				}
+			}
+		}
+		// Dial that must fail (no common version / failed discovery), with a fault during the discovery exchange
+		if !enforce {
+			for mode := 1; mode <= 2; mode++ {
+				for k := 0; k <= 6; k++ {
+					for _, kind := range []string{"eof", "closed", "reset"} {
+						sc := &ClientSc{Prop: "C11", DiscoverMode: mode, FinalClose: true, Callers: []CallerSc{{Calls: []CallSc{{Kind: "request"}}}}}
+						if k > 0 {
+							sc.Conns = []ConnSc{{Plan: []simnet.FaultAt{{Op: k, Kind: kind}}}}
+						}
+						out = append(out, sc)
+					}
+				}
+				for _, bh := range []ReqBehav{{CloseBefore: true}, {CloseAfter: true}, {Partial: 4}} {
+					out = append(out, &ClientSc{Prop: "C11", DiscoverMode: mode, FinalClose: true, Behav: []ReqBehav{bh, {}}, Callers: []CallerSc{{Calls: []CallSc{{Kind: "request"}}}}})
 				}
 			}
 		}
